@@ -409,6 +409,10 @@ class GraphBasedModelConstructor:
             if not intron_path: continue
             transcript_range = (path[0][1], path[-1][1])
             novel_exons = get_exons(transcript_range, list(intron_path))
+            if junctions_from_blocks(novel_exons) != list(intron_path):
+                # consecutive introns of the path overlap or touch (e.g. after a micro-exon was moved when a bulge
+                # was collapsed): the exons would fuse them into an intron that no read contains
+                continue
             count = self.path_storage.paths[path]
             new_transcript_id = TranscriptNaming.transcript_prefix + str(self.get_transcript_id())
             # logger.debug("uuu %s: %s" % (new_transcript_id, str(novel_exons)))
